@@ -45,14 +45,14 @@ def oracle_tags(line):
 def run_bdd_history(item, pid, wdir, with_model=True, profile="release"):
     name, lines, meta = item
     hp = H.write_hist(os.path.join(wdir, name + ".hist"), lines)
-    impl = H.run_impl(hp, oracle=True, profile=profile, timeout=meta.get("timeout", 8))
+    impl = H.run_impl(hp, oracle=True, profile=profile, timeout=meta.get("timeout", 8), retry=True)
     res = {"name": name, "path": hp, "meta": meta, "impl_status": impl["status"], "nlines": len(impl["lines"])}
     res["oracle"] = [l for l in impl["oracle"] if oracle_tags(l) in R.TAGS[pid]]
     res["oracle_other"] = len(impl["oracle"]) - len(res["oracle"])
     res["info"] = impl["info"]
     res["panic_full"] = any(l == "panic full" for l in impl["lines"])
     if with_model:
-        model = H.run_model(hp, timeout=meta.get("timeout", 600))
+        model = H.run_model(hp, timeout=meta.get("timeout", 600), retry=True)
         exact, canon, diff = H.compare_traces(lines, impl["lines"], model["lines"], alloc=(pid in R.ALLOC))
         res.update({"exact": exact, "canon": canon, "diff": diff, "model_status": model["status"]})
     else:
@@ -63,7 +63,7 @@ def run_bdd_history(item, pid, wdir, with_model=True, profile="release"):
         v = cache_variant(lines)
         if v is not None:
             vp = H.write_hist(os.path.join(wdir, name + ".var.hist"), v)
-            impl2 = H.run_impl(vp, oracle=False, profile=profile, timeout=meta.get("timeout", 8))
+            impl2 = H.run_impl(vp, oracle=False, profile=profile, timeout=meta.get("timeout", 8), retry=True)
             a, b = impl["lines"], impl2["lines"]
             if any(l.startswith("panic") for l in a + b):
                 n = min(len(a), len(b)) - 1          # storage may fill earlier with a smaller cache: compare the common prefix
